@@ -94,6 +94,19 @@ Proof.
   apply parse_print; assumption.
 Qed.
 
+(* C07: everything the gate allows is accepted in its canonical spelling *)
+Theorem accept_canonical :
+  forall (E : env) re_ok (q : query) (t : ustr),
+    tokens_ok E = true -> e_well_typed E = true -> e_unicode_escape E = true ->
+    gate_query (e_min_index E) (e_max_index E) q = true ->
+    printable re_ok q = true -> reparsable E q = true -> floats_stable q = true ->
+    query_text E q = Ok t ->
+    compile E re_ok t = Ok (norm_query q).
+Proof.
+  intros E ro q t HE WT UE Hg Hp Hr Hf Ht. apply (roundtrip_env E ro q t HE WT UE); [|exact Ht].
+  unfold c10_domain. rewrite Hg, Hp, Hr, Hf. reflexivity.
+Qed.
+
 Theorem roundtrip :
   forall (E : env) re_ok (q : query) (t : ustr),
     default_tokens E -> e_well_typed E = true -> e_unicode_escape E = true ->
